@@ -1,5 +1,6 @@
 import SC.Proofs.SpecIndex
 import SC.Proofs.SpecLast
+import SC.Proofs.RLastIndex
 /-!
 # C08 — LastIndex returns exactly the rightmost case-insensitive match
 -/
@@ -38,6 +39,27 @@ theorem index_le_lastIndex (s sub : Bytes) :
       simp only [S.fruns, fdec_length] at hjl
       have := offAt_le_of_le s i j hij hjl
       simp; omega
+
+/-! ### Refinement: `A.LastIndex` equals the specification
+
+For **every** pair of byte strings, both packages: the dispatch (empty needle, one ASCII byte →
+`LastIndexByte`, one code point → `lastIndexRune`, the two length pre-checks), `lastIndexRune`
+(backward rune loop with the ASCII shortcut and `DecodeLastRune`, FoldMap members / upper-lower pair,
+strcase's backward byte comparison for caseless runes), and `indexRabinKarpRevUnicode` (backward hash,
+backward first window, backward rolling window verified by `hasSuffixUnicode`). -/
+
+theorem lastIndex_refines (cfg : A.Cfg) (s sub : Bytes) : A.LastIndex cfg s sub = S.lastIndex s sub := A.LastIndex_eq cfg s sub
+
+theorem rabinKarpRev_rightmost (cfg : A.Cfg) (s sub : Bytes) (h : sub ≠ []) :
+    IsLastIndex Fold.caseFold s sub (A.indexRabinKarpRevUnicode cfg s sub) := A.indexRabinKarpRevUnicode_isLastIndex cfg s sub h
+
+/-- backward decoding agrees with forward segmentation on arbitrary bytes (what every backward loop relies on) -/
+theorem backward_segmentation (s : Bytes) : A.decRev (s.length + 1) s = (dec s).reverse := A.decRev_eq _ s (by omega)
+
+/-- `LastIndex ≥ Index` whenever either finds something, for the algorithm model -/
+theorem model_index_le_lastIndex (cfg : A.Cfg) (s sub : Bytes) :
+    (0 ≤ A.Index cfg s sub ↔ 0 ≤ A.LastIndex cfg s sub) ∧ (0 ≤ A.Index cfg s sub → A.Index cfg s sub ≤ A.LastIndex cfg s sub) := by
+  rw [A.Index_eq, A.LastIndex_eq]; exact index_le_lastIndex s sub
 
 example : S.lastIndex [0x6B, 0x4B, 0xE2, 0x84, 0xAA, 0x78] [0x4B] = 2 := by decide +kernel
 end C08
